@@ -597,8 +597,9 @@ class TestCase:  # noqa: PLR0904
             stmt = self._statements[i]
             bv = stmt.bound_variable
             # The statement's assertions run right after it and read their sources.
+            # A source may be a dotted path (``var_0.field``); its root is the variable.
             alive_vars.update(
-                assertion.source
+                assertion.source.split(".")[0]
                 for assertion in stmt.assertions
                 if isinstance(assertion, ReferenceAssertion)
             )
